@@ -34,6 +34,8 @@ type scramAuth struct {
 	isPlus                                      bool
 	tlsConnState                                *tls.ConnectionState
 	bindData                                    []byte
+	// serverVerified is set once the server signature of the running exchange has been verified
+	serverVerified bool
 }
 
 // ScramSHA1Auth creates and returns a new SCRAM-SHA-1 authentication mechanism with the given
@@ -116,6 +118,14 @@ func (a *scramAuth) Next(fromServer []byte, more bool) ([]byte, error) {
 			return nil, fmt.Errorf("%w: %s", ErrUnexpectedServerResponse, string(fromServer))
 		}
 	}
+	// The server reported success. SCRAM provides mutual authentication: once the exchange has
+	// been started, success is only accepted if the server has proven knowledge of the password
+	// by a valid server signature for this very exchange.
+	started, verified := len(a.nonce) > 0, a.serverVerified
+	a.reset()
+	if started && !verified {
+		return nil, errors.New("server reported success without providing a valid server signature")
+	}
 	return nil, nil
 }
 
@@ -126,6 +136,7 @@ func (a *scramAuth) reset() {
 	a.saltedPwd = nil
 	a.authMessage = nil
 	a.iterations = 0
+	a.serverVerified = false
 }
 
 // initialClientMessage generates the initial message for SCRAM authentication, including a nonce and
@@ -176,6 +187,8 @@ func (a *scramAuth) initialClientMessage() ([]byte, error) {
 
 // handleServerFirstResponse processes the first response from the server in SCRAM authentication.
 func (a *scramAuth) handleServerFirstResponse(fromServer []byte) ([]byte, error) {
+	// A (repeated) server-first-message invalidates any signature verified before
+	a.serverVerified = false
 	parts := bytes.Split(fromServer, []byte(","))
 	if len(parts) < 3 {
 		return nil, errors.New("not enough fields in the first server response")
@@ -232,12 +245,18 @@ func (a *scramAuth) handleServerFirstResponse(fromServer []byte) ([]byte, error)
 
 // handleServerValidationMessage verifies the server's signature during the SCRAM authentication process.
 func (a *scramAuth) handleServerValidationMessage(fromServer []byte) ([]byte, error) {
+	// Without a preceding server-first-message there is no salted password and no auth message,
+	// and the "signature" over this empty state could be computed by anyone.
+	if len(a.saltedPwd) == 0 || len(a.authMessage) == 0 {
+		return nil, errors.New("server signature received before the server-first-message")
+	}
 	serverSignature := fromServer[2:]
 	computedServerSignature := a.computeServerSignature()
 
 	if !hmac.Equal(serverSignature, computedServerSignature) {
 		return nil, errors.New("invalid server signature")
 	}
+	a.serverVerified = true
 	return []byte(""), nil
 }
 
